@@ -57,4 +57,15 @@ PROPS = {
                         "way a single altered byte can change an entry"],
         "partial": "process/file-system level effects beyond cut and byte alteration of the newest file are not modelled",
     },
+    "C11": {
+        "counts": {"quick": 200, "thorough": 5000},
+        "rule": "one case = one table written by sstable.Writer from a strictly ascending entry list and read back "
+                "through sstable.Reader (iterator scripts SeekToFirst/Seek/Next/SeekToLast raw and through IteratorAdapter, "
+                "Get, byte layout of every region, single-byte corruptions); compared with the extracted SSTable/Block/"
+                "SSTFile models; oracle = positions tracked in the sorted input list; non-trivial = at least 2 entries and "
+                "at least one scan, seek or corruption; distinct by case text",
+        "assumptions": ["the file system returns the bytes written; bloom filter contents are not modelled "
+                        "(any filter without false negatives gives the same Get, theorem C11_get)"],
+        "partial": "",
+    },
 }
